@@ -66,9 +66,35 @@ func Harness_C08_writer() {
 	V.Assert(bytes.Equal(out, data), "de-armored bytes differ from the data")
 }
 
-func isB64(c byte) bool {
-	return (c >= 'A' && c <= 'Z') || (c >= 'a' && c <= 'z') || (c >= '0' && c <= '9') || c == '+' || c == '/' || c == '='
-}
+// b64class[c] reports whether c is in the padded base64 alphabet. A table (not
+// a chain of && / ||) so that a symbolic c is classified without forking.
+var b64class = func() (t [256]bool) {
+	for _, c := range "ABCDEFGHIJKLMNOPQRSTUVWXYZabcdefghijklmnopqrstuvwxyz0123456789+/=" {
+		t[c] = true
+	}
+	return
+}()
+
+var notLF = func() (t [256]bool) {
+	for i := range t {
+		t[i] = i != '\n'
+	}
+	return
+}()
+
+var notLFCR = func() (t [256]bool) {
+	for i := range t {
+		t[i] = i != '\n' && i != '\r'
+	}
+	return
+}()
+
+var asciiNotLF = func() (t [256]bool) {
+	for i := 0; i < 128; i++ {
+		t[i] = i != '\n'
+	}
+	return
+}()
 
 // line returns n bytes: base64 alphabet (incl. '=') everywhere except at up to
 // `wild` positions, where any byte except LF may stand.
@@ -82,10 +108,13 @@ func line(name string, n, wild int) []byte {
 		w2 = V.Int(name+".w2", w1, n-1)
 	}
 	for i, c := range b {
-		if i == w1 || i == w2 {
-			V.Assume(c != '\n')
+		if (i == w1 || i == w2) && i == n-1 {
+			// a CR in the last position is the CR of a CRLF ending (covered by eol)
+			V.Assume(notLFCR[c])
+		} else if i == w1 || i == w2 {
+			V.Assume(notLF[c])
 		} else {
-			V.Assume(isB64(c))
+			V.Assume(b64class[c])
 		}
 	}
 	return b
@@ -101,7 +130,7 @@ func marker(name, exact string, variants bool) []byte {
 	case 1:
 		p := V.Int(name+".pos", 0, len(exact)-1)
 		c := V.Byte(name + ".c")
-		V.Assume(c != '\n')
+		V.Assume(notLF[c])
 		b := []byte(exact)
 		b[p] = c
 		return b
@@ -109,7 +138,7 @@ func marker(name, exact string, variants bool) []byte {
 		return []byte(exact[:len(exact)-1])
 	case 3:
 		c := V.Byte(name + ".x")
-		V.Assume(c != '\n')
+		V.Assume(notLFCR[c]) // a CR before the LF is the documented CRLF tolerance (covered by eol)
 		return append([]byte(exact), c)
 	}
 	return []byte(exact)
@@ -134,7 +163,7 @@ func eol(name string, atEOF bool) []byte {
 func junk(name string, n int) []byte {
 	b := V.Bytes(name, n)
 	for _, c := range b {
-		V.Assume(c < 0x80 && c != '\n')
+		V.Assume(asciiNotLF[c])
 	}
 	return b
 }
@@ -147,13 +176,13 @@ func junk(name string, n int) []byte {
 // has the armor error type and is sticky.
 func Harness_C08_reader() {
 	wild := V.Param("wild", 1)
-	variants := V.Param("variants", 1) == 1
+	variants := V.Param("variants", 1)
 	var text, norm []byte
-	if V.Bool("lead") {
+	if V.Param("ends", 1) == 1 && V.Bool("lead") {
 		text = append(text, junk("lead", V.Int("leadlen", 0, 2))...)
 		text = append(text, eol("lead.eol", false)...)
 	}
-	h := marker("hdr", Header, variants)
+	h := marker("hdr", Header, variants == 1)
 	text = append(text, h...)
 	text = append(text, eol("hdr.eol", false)...)
 	norm = append(norm, h...)
@@ -162,20 +191,22 @@ func Harness_C08_reader() {
 	for i := 0; i < nb; i++ {
 		id := string(rune('0' + i))
 		var ll int
-		switch V.Int("len"+id, 0, 6) {
+		switch V.Int("len"+id, 0, V.Param("lenkinds", 7)) {
 		case 0:
 			ll = 0
 		case 1:
-			ll = 1
-		case 2:
 			ll = 4
+		case 2:
+			ll = 5
 		case 3:
-			ll = 60
-		case 4:
-			ll = 63
-		case 5:
 			ll = 64
+		case 4:
+			ll = 60
+		case 5:
+			ll = 1
 		case 6:
+			ll = 63
+		case 7:
 			ll = 65
 		}
 		l := line("l"+id, ll, wild)
@@ -186,11 +217,11 @@ func Harness_C08_reader() {
 	}
 	hasFooter := V.Bool("footer")
 	if hasFooter {
-		f := marker("ftr", Footer, variants)
+		f := marker("ftr", Footer, variants == 2)
 		text = append(text, f...)
 		norm = append(norm, f...)
 		norm = append(norm, '\n')
-		trail := V.Bool("trail")
+		trail := V.Param("ends", 1) == 1 && V.Bool("trail")
 		text = append(text, eol("ftr.eol", !trail)...)
 		if trail {
 			text = append(text, junk("trail", V.Int("traillen", 0, 2))...)
@@ -203,8 +234,11 @@ func Harness_C08_reader() {
 		V.Reach("rejected")
 		var ae *Error
 		V.Assert(errors.As(err, &ae), "armor failure does not carry the armor error type")
-		n, e2 := r.Read(make([]byte, 8))
-		V.Assert(n == 0 && e2 != nil && e2 != io.EOF, "a failed armor reader does not keep failing")
+		if V.Param("sticky", 0) == 1 {
+			// C13: a stream that has failed keeps failing
+			n, e2 := r.Read(make([]byte, 8))
+			V.Assert(n == 0 && e2 != nil && e2 != io.EOF, "a failed armor reader does not keep failing")
+		}
 		return
 	}
 	V.Reach("accepted")
